@@ -67,6 +67,7 @@ func runC20(t *testing.T, tp *simrt.Tape, keepTrace bool) hx.Result {
 		units    int
 		work     []time.Duration
 		startLag time.Duration
+		stopOnYieldErr bool
 	}
 	durs := []time.Duration{0, time.Millisecond, 50 * time.Millisecond, 500 * time.Millisecond, 3 * time.Second, 6 * time.Second}
 	plans := make([]plan, nClients)
@@ -79,6 +80,7 @@ func runC20(t *testing.T, tp *simrt.Tape, keepTrace bool) hx.Result {
 			p.work = append(p.work, durs[tp.Gen(len(durs))])
 		}
 		p.startLag = durs[tp.Gen(3)]
+		p.stopOnYieldErr = tp.Gen(2) == 0
 	}
 	expBatchCap := capacity
 	if div == 0 {
@@ -211,6 +213,9 @@ func runC20(t *testing.T, tp *simrt.Tape, keepTrace bool) hx.Result {
 						simrt.Yield("c20work")
 					}
 					before := c.phase
+					if failedYield {
+						before = c20Idle
+					}
 					if before == c20HoldI {
 						c.phase = c20InYield
 					}
@@ -225,7 +230,13 @@ func runC20(t *testing.T, tp *simrt.Tape, keepTrace bool) hx.Result {
 						c.phase = c20Idle
 						cur = ""
 						failedYield = true
-						break
+						if p.stopOnYieldErr {
+							break
+						}
+						// like the shard loop (which ignores Yield's error and calls it
+						// again on every iteration) keep yielding: it must stay a no-op
+						simrt.Probe("yield-retried-after-failure")
+						continue
 					}
 					if before == c20HoldI {
 						if !wasNil && proc.yieldTimer == nil {
